@@ -20,7 +20,8 @@
 (*              entry for the stream in windowIncrements)                   *)
 (*   wire[e]    messages written by e and not yet parsed by Peer(e).read    *)
 (*   backlog[e] pendingInboundStreamIdentifiers                             *)
-(*   nextOut[e] nextOutboundStreamIdentifier                                *)
+(*   nextOut[e] nextOutboundStreamIdentifier (0 once exhausted)              *)
+(*   idmax      the largest identifier (math.MaxUint64 in the code)          *)
 (*   maxIn[e]   largestOpenedInboundStreamIdentifier (local to read())      *)
 (*   unsent[e]  identifiers allocated by OpenStream whose open message is   *)
 (*              not queued yet (only non-empty in the pre-repair variant in *)
@@ -77,6 +78,7 @@ InitS(w, b) ==
    wire |-> [e \in E |-> <<>>],
    backlog |-> [e \in E |-> <<>>],
    nextOut |-> [e \in E |-> FirstOut(e)],
+   idmax |-> MaxId,
    maxIn |-> [e \in E |-> 0],
    perr |-> [e \in E |-> FALSE],
    xclose |-> FALSE,
@@ -250,19 +252,24 @@ LocalClose(S, e, s) ==
        IN RRun(B, e, s)
 
 \* OpenStream, first half: register, take a write buffer, encode the open message
-CanOpen(S, e) == S.nextOut[e] <= MaxId
+\* identifiers are handed out in steps of 2; once `MaxUint64 - next < 2` the counter is set to 0 and every later
+\* OpenStream fails with "local stream identifiers exhausted"
+Exhausted(S, e) == S.nextOut[e] = 0
+CanOpen(S, e) == S.nextOut[e] # 0 /\ S.nextOut[e] <= MaxId
+NextAfter(S, s) == IF S.idmax - s < 2 THEN 0 ELSE s + 2
 DoOpen(S, e) ==
   LET s == S.nextOut[e] IN
-  Send([S EXCEPT !.ss[e][s].reg = TRUE, !.nextOut[e] = s + 2], e, <<Msg("open", s, S.w, <<>>)>>)
+  Send([S EXCEPT !.ss[e][s].reg = TRUE, !.nextOut[e] = NextAfter(S, s)], e, <<Msg("open", s, S.w, <<>>)>>)
 
 \* The same in two steps, as the code was before OpenStream held the openOrder semaphore from identifier
 \* allocation until the open message was queued: concurrent opens could queue their messages in any order.
 DoOpenAlloc(S, e) ==
-  LET s == S.nextOut[e] IN [S EXCEPT !.ss[e][s].reg = TRUE, !.nextOut[e] = s + 2, !.unsent[e] = @ \cup {s}]
+  LET s == S.nextOut[e] IN [S EXCEPT !.ss[e][s].reg = TRUE, !.nextOut[e] = NextAfter(S, s), !.unsent[e] = @ \cup {s}]
 DoOpenSend(S, e, s) == Send([S EXCEPT !.unsent[e] = @ \ {s}], e, <<Msg("open", s, S.w, <<>>)>>)
 
 \* OpenStream, second half: which case of the final select is ready
-OpenPending(S, e, s) == IsOut(e, s) /\ s < S.nextOut[e] /\ s \notin S.unsent[e] /\ S.ss[e][s].reg /\ ~S.ss[e][s].api /\ ~S.ss[e][s].cl
+Allocated(S, e, s) == IsOut(e, s) /\ (S.nextOut[e] = 0 \/ s < S.nextOut[e])
+OpenPending(S, e, s) == Allocated(S, e, s) /\ s \notin S.unsent[e] /\ S.ss[e][s].reg /\ ~S.ss[e][s].api /\ ~S.ss[e][s].cl
 OpenOutcome(S, e, s) == IF S.ss[e][s].est THEN "ok" ELSE IF S.ss[e][s].rcl THEN "rejected" ELSE "pending"
 DoOpenReturn(S, e, s) ==   \* established: hand the stream out; rejected: deferred stream.close(true)
   IF S.ss[e][s].est THEN [S EXCEPT !.ss[e][s].api = TRUE] ELSE LocalClose(S, e, s)
@@ -310,7 +317,8 @@ RecvVerdict(S, e, m) ==
   LET s == m.s
       outb == IsOut(e, s)
       X == S.ss[e][s]
-      rangeBad == IF outb THEN s >= S.nextOut[e] ELSE s > S.maxIn[e]
+      \* as coded: once the local identifiers are exhausted (counter 0) no outbound identifier is out of range any more
+      rangeBad == IF outb THEN (S.nextOut[e] # 0 /\ s >= S.nextOut[e]) ELSE s > S.maxIn[e]
   IN
   IF m.k = "hb" THEN "discard"                 \* heartbeat: strobes the heartbeats channel (MuxHeart), no stream state
   ELSE IF s < 1 \/ s > MaxId THEN "bad stream identifier"
